@@ -179,6 +179,7 @@ func (cx *Ctx) buildFuncUnitOnce(fn *ssa.Function, fc *FuncContract, blacklist m
 	cov2.Cover = true
 	penv := fr.specEnv(out, fr.entry)
 	penv.fr = nil
+	penv.tpFrame = fr
 	penv.result = res
 	bindResults(penv, fn.Signature, res)
 	for i, c0 := range fc.Ensures {
